@@ -67,16 +67,16 @@ theorem take_replicate_set (R : List Int) (q k : Nat) (hk : k < q) (hR : q ≤ R
   grind
 
 theorem src_tournament_selection (fitness rank : List Int) (tourSize : Int) (q : Nat)
-    (samples : List (List Nat)) (hq : q ≤ samples.length) (hne : ∀ r ∈ samples, r ≠ [])
-    (hin : ∀ r ∈ samples, ∀ i ∈ r, i < fitness.length) :
-    tournament_selection fitness rank tourSize (q : Int) (samples.map fun r => r.map Int.ofNat) =
-      some ((samples.take q).map fun r => ((Select.tournament fitness r : Nat) : Int)) := by
+    (sampler : Int → Int → Bool → Nat → List Int) (smp : Nat → List Nat)
+    (hs : ∀ k, k < q → sampler (fitness.length : Int) tourSize false k = (smp k).map Int.ofNat)
+    (hne : ∀ k, k < q → smp k ≠ [])
+    (hin : ∀ k, k < q → ∀ i ∈ smp k, i < fitness.length) :
+    tournament_selection fitness rank tourSize (q : Int) sampler =
+      some ((List.range q).map fun k => ((Select.tournament fitness (smp k) : Nat) : Int)) := by
   unfold tournament_selection
-  generalize hR : (samples.map fun r => ((Select.tournament fitness r : Nat) : Int)) = R
-  have hRlen : R.length = samples.length := by simp [← hR]
-  have hfin : ((samples.take q).map fun r => ((Select.tournament fitness r : Nat) : Int)) =
-      R.take q := by
-    simp [← hR, List.map_take]
+  generalize hR : ((List.range q).map fun k => ((Select.tournament fitness (smp k) : Nat) : Int)) = R
+  have hRlen : R.length = q := by simp [← hR]
+  have hfin : R = R.take q := by rw [List.take_of_length_le (by omega)]
   rw [hfin]
   refine forRange_elim
     (P := fun k (s : tournament_selection.S) => s.brk = false ∧ s.err = false ∧ s.dry = false ∧
@@ -86,33 +86,28 @@ theorem src_tournament_selection (fitness rank : List Int) (tourSize : Int) (q :
   · simp
   · intro k s hk ⟨hb, he, hd, hx, ht⟩
     have hk' : k < q := by simpa using hk
-    have hks : k < samples.length := by omega
-    have hmem : samples[k] ∈ samples := List.getElem_mem hks
-    have hrow : Imp.getrow (samples.map fun r => r.map Int.ofNat) (k : Int) =
-        samples[k].map Int.ofNat := by
-      simp [Imp.getrow, List.getD_eq_getElem?_getD, hks]
-    have hnot : ¬ samples.length ≤ k := by omega
-    have hempty : (samples[k].map Int.ofNat).isEmpty = false := by
-      have := hne _ hmem
-      cases h : samples[k] with
+    have hrow : sampler (Imp.leni fitness) tourSize false k = (smp k).map Int.ofNat := hs k hk'
+    have hempty : ((smp k).map Int.ofNat).isEmpty = false := by
+      have := hne k hk'
+      cases h : smp k with
       | nil => exact absurd h this
       | cons a l => rfl
-    have hmapne : (samples[k].map fun i => fitness.getD i 0) ≠ [] := by
-      have := hne _ hmem
+    have hmapne : ((smp k).map fun i => fitness.getD i 0) ≠ [] := by
+      have := hne k hk'
       simpa using this
     have hlt := argmaxIdx_lt _ hmapne
-    have hinb1 : Imp.inb (samples[k].map Int.ofNat)
-        ((Select.argmaxIdx (samples[k].map fun i => fitness.getD i 0) : Nat) : Int) = true := by
+    have hinb1 : Imp.inb ((smp k).map Int.ofNat)
+        ((Select.argmaxIdx ((smp k).map fun i => fitness.getD i 0) : Nat) : Int) = true := by
       simp only [Imp.inb, Bool.and_eq_true, decide_eq_true_eq, List.length_map] at hlt ⊢
       omega
     have hlen : (R.take k ++ List.replicate (q - k) (0 : Int)).length = q := by
       simp only [List.length_append, List.length_take, List.length_replicate]; omega
     have hinb2 : Imp.inb (R.take k ++ List.replicate (q - k) (0 : Int)) (k : Int) = true := by
       simp only [Imp.inb, Bool.and_eq_true, decide_eq_true_eq, hlen]; omega
-    have hRk : R.getD k 0 = ((Select.tournament fitness samples[k] : Nat) : Int) := by
-      simp [← hR, List.getD_eq_getElem?_getD, hks]
+    have hRk : R.getD k 0 = ((Select.tournament fitness (smp k) : Nat) : Int) := by
+      simp [← hR, List.getD_eq_getElem?_getD, hk']
     simp only [hb, he, hd, hx, ht, Bool.false_eq_true, if_false, Int.zero_add, hrow,
-      List.length_map, hnot, decide_false, Bool.or_false, allInb_map_ofNat fitness _ (hin _ hmem),
+      Bool.or_false, allInb_map_ofNat fitness _ (hin k hk'),
       hempty, Bool.not_true, gather_map_ofNat, argmax_eq, hinb1, hinb2, geti_map_ofNat,
       seti_ofNat, true_and]
     rw [← take_replicate_set R q k hk' (by omega), hRk]
